@@ -19,7 +19,7 @@ import re
 import z3
 
 from . import ops
-from .core import Sym, exc_text
+from .core import Sym, canon_sexpr, exc_text
 
 ROOT = os.path.dirname(os.path.dirname(os.path.abspath(__file__)))
 TABLE_DIR = os.path.join(ROOT, "spec", "tables")
@@ -114,7 +114,7 @@ def fork_conditions(path):
 
 def case_of_result(it_dump, r):
     """one explored path -> a table case"""
-    when = [z3.simplify(c).sexpr() for c in fork_conditions(r.path)]
+    when = [canon_sexpr(c) for c in fork_conditions(r.path)]
     if r.outcome == "return":
         return {"when": when, "outcome": "return", "dump": it_dump}
     return {"when": when, "outcome": "raise", "exc": type(r.exc).__name__}
@@ -184,7 +184,7 @@ class TableChecker:
     def check_path(self, pi, r, dump, hyps, only=None, sliced=False):
         """compare one explored path (PathResult r with its dump or exception) against the table"""
         ses, fn = self.ses, self.function
-        P_when = [z3.simplify(c).sexpr() for c in fork_conditions(r.path)]
+        P_when = [canon_sexpr(c) for c in fork_conditions(r.path)]
         pid = f"{self.prefix}/path{pi}"
         matched = 0
         cases = list(enumerate(self.table["cases"]))
